@@ -8,13 +8,14 @@ are ordered (hence pairwise disjoint), aligned as promised, and the stack-argume
 plus the return address.
 -/
 import AsmjitVerif.Lemmas.FrameArith
+import AsmjitVerif.Lemmas.FrameX86WF
 namespace AsmjitVerif.Frame
 
 /-- side conditions on what the user / the register allocator puts into a frame before `finalize` -/
 structure LayoutIn (g : Frame) : Prop where
   kA : ∃ k, k ≤ 7 ∧ g.finalAlign = 2 ^ k
   kV : ∃ j, j ≤ 7 ∧ g.srSize 1 = 2 ^ j
-  sizes : g.callSize + g.localSize ≤ 2 ^ 30
+  sizes : g.callSize + g.localSize ≤ 2 ^ 29
   w : 0 < g.srSize 0 ∧ g.srSize 0 ≤ 8
 
 /-- what `finalize` promises about the numbers it reports (`l` = the finalized frame) -/
@@ -32,7 +33,7 @@ structure LayoutOut (g l : Frame) : Prop where
               l.finalSize = l.ppSize
   adjPlain : g.hasDA = false → l.stackAdj = l.ppOff ∧ l.saOffSp = l.finalSize + g.retAddrSize
   adjDA : g.hasDA = true → l.stackAdj % g.finalAlign = 0 ∧ l.ppOff ≤ l.stackAdj ∧ l.stackAdj < l.ppOff + g.finalAlign
-  small : l.finalSize + g.retAddrSize < 2 ^ 31 ∧ l.stackAdj < 2 ^ 31
+  small : l.finalSize + g.retAddrSize < 2 ^ 30 ∧ l.stackAdj < 2 ^ 30
 
 theorem finalize_layout (g : Frame) (h : LayoutIn g) : LayoutOut g g.layout := by
   obtain ⟨k, hk, hA⟩ := h.kA
@@ -71,7 +72,7 @@ theorem finalize_layout (g : Frame) (h : LayoutIn g) : LayoutOut g g.layout := b
     split
     · rw [Nat.mod_eq_of_lt (by omega)]
     · rfl
-  have hvd : g.vDaC < 2 ^ 30 + 2 ^ 17 := by rw [hVD]; split <;> omega
+  have hvd : g.vDaC < 2 ^ 29 + 2 ^ 17 := by rw [hVD]; split <;> omega
   -- alignment pad
   obtain ⟨pd1, pd2⟩ := alignUpDiff_spec (g.vDaC + g.ppSizeC + g.retAddrSize) k (by omega) (by omega)
   have hPO : g.ppOffC = if (g.vDaC != 0 || g.hasFuncCalls || g.retAddrSize == 0)
@@ -170,5 +171,338 @@ example : LayoutIn exFrame :=
   ⟨⟨5, by decide, by decide⟩, ⟨4, by decide, by decide⟩, by decide, by decide⟩
 /-- … and the numbers are the expected ones (local area at 64, DA slot at 164, 6 pushes, aligned adjustment) -/
 example : (exFrame.finalize.localOff, exFrame.finalize.daOff, exFrame.finalize.ppSize, exFrame.finalize.stackAdj) = (64, 164, 48, 224) := by decide
+
+/-!
+Part 2 (x86-32 / x86-64): `prolog ; any confined body ; epilog` on the stack machine.
+
+`X86In` lists what an x86 calling convention and the user put into a frame before `finalize`
+(register sizes of the convention, preserved GP mask below bit 16 with `sp` clear and the frame pointer
+set, minimum dynamic alignment = 2 x natural alignment, SA register unset or a real GP register).
+`x86_wf_of_finalize` derives the well-formedness facts `X86WF` for the finalized frame, and
+`x86_prolog_body_epilog` is the property itself for EVERY such frame, EVERY entry state the convention
+allows and EVERY body confined to the declared areas.
+-/
+
+structure X86In (g : Frame) : Prop where
+  arch : g.arch = .x86 ∨ g.arch = .x64
+  sr0 : g.srSize 0 = g.arch.W ∧ g.srAlign 0 = g.arch.W
+  sr1 : g.srSize 1 = 16 ∧ g.srAlign 1 = 16
+  sr2 : g.srSize 2 = 8 ∧ g.srAlign 2 = 8
+  sr3 : g.srSize 3 = 8 ∧ g.srAlign 3 = 8
+  pres16 : g.preserved 0 < 2 ^ 16
+  presSp : (g.preserved 0).testBit 4 = false
+  presFp : (g.preserved 0).testBit 5 = true
+  nat : g.natAlign ≤ g.finalAlign ∧ g.minDynAlign = 2 * g.natAlign ∧ ∃ n, g.natAlign = 2 ^ n
+  sa : g.saRegId = 0xFF ∨ g.saRegId < 16
+  attr6 : g.attrs.testBit 6 = false
+
+theorem x86_wf_of_finalize (g : Frame) (hin : LayoutIn g) (hx : X86In g) : X86WF g.finalize := by
+  have lay := finalize_layout_full g hin
+  obtain ⟨k, hk, hA⟩ := hin.kA
+  have hW : g.arch.W = 4 ∨ g.arch.W = 8 := by rcases hx.arch with h | h <;> simp [h, Arch.W]
+  have hsp : g.arch.spId = 4 := by rcases hx.arch with h | h <;> simp [h, Arch.spId]
+  have hfpid : g.arch.fpId = 5 := by rcases hx.arch with h | h <;> simp [h, Arch.fpId]
+  have hlr : g.arch.lrId = none := by rcases hx.arch with h | h <;> simp [h, Arch.lrId]
+  have hpk : 2 ^ k ≤ 128 := by
+    have : 2 ^ k ≤ 2 ^ 7 := Nat.pow_le_pow_right (by omega) hk
+    omega
+  obtain ⟨s0a, s0b⟩ := hx.sr0
+  obtain ⟨s1a, s1b⟩ := hx.sr1
+  obtain ⟨s2a, s2b⟩ := hx.sr2
+  obtain ⟨s3a, s3b⟩ := hx.sr3
+  have hras : g.fin1.retAddrSize = g.arch.W := by
+    unfold Frame.retAddrSize; simp only [Frame.fin1, hlr]; exact s0a
+  -- the SA register chosen by finalize
+  have hsaC : g.saC < 16 ∧ (g.hasDA = true → g.saC ≠ 4) := by
+    unfold Frame.saC
+    simp only [hsp, hfpid]
+    rcases hx.sa with h | h
+    · rw [h]; simp only [if_true]
+      cases g.hasDA <;> simp
+    · have h255 : g.saRegId ≠ 255 := by omega
+      rw [if_neg h255]
+      by_cases h4 : g.saRegId = 4
+      · rw [h4]; cases g.hasDA <;> simp
+      · have : ¬ (g.hasDA = true ∧ g.saRegId = 4) := fun hh => h4 hh.2
+        rw [if_neg this]
+        exact ⟨h, fun _ => h4⟩
+  have hsaId : g.fin1.saRegId = g.saC := Nat.mod_eq_of_lt (by omega)
+  -- dirty bits set by finalize
+  have hd0 : g.fin1.dirty 0 = u32 g.dirty0C := rfl
+  have hdirty5 : g.hasFP = true → (g.fin1.dirty 0).testBit 5 = true := by
+    intro hfp
+    rw [hd0, tb_u32 _ 5 (by omega)]
+    unfold Frame.dirty0C
+    simp only [hsp, hfpid, hlr, hfp, if_true]
+    split
+    · apply tb_or_left; apply tb_or_left; exact tb_or_bit _ 5
+    · apply tb_or_left; exact tb_or_bit _ 5
+  have hdirtySa : g.saC ≠ 4 → (g.fin1.dirty 0).testBit g.saC = true := by
+    intro hne
+    rw [hd0, tb_u32 _ _ (by omega)]
+    unfold Frame.dirty0C
+    simp only [hsp]
+    rw [if_pos hne]
+    exact tb_or_bit _ _
+  -- save-area sizes
+  have hn (gi : Nat) : g.fin1.nSaved gi ≤ 32 := nSaved_le _ _
+  have hgs (gi j : Nat) (hj : j ≤ 4) (h1 : g.srSize gi = 2 ^ j) (h2 : g.srAlign gi = 2 ^ j) :
+      g.fin1.groupSaveSize gi = g.fin1.nSaved gi * 2 ^ j := by
+    have hpj : 2 ^ j ≤ 16 := by
+      have : 2 ^ j ≤ 2 ^ 4 := Nat.pow_le_pow_right (by omega) hj
+      omega
+    have hnn := hn gi
+    have hb : g.fin1.nSaved gi * 2 ^ j ≤ 32 * 16 := Nat.mul_le_mul hnn hpj
+    unfold Frame.groupSaveSize popcnt32
+    show alignUp (u32 (g.fin1.nSaved gi * g.srSize gi)) (g.srAlign gi) = _
+    rw [h1, h2]
+    have : u32 (g.fin1.nSaved gi * 2 ^ j) = g.fin1.nSaved gi * 2 ^ j := Nat.mod_eq_of_lt (by omega)
+    rw [this]
+    exact alignUp_mul _ j (by omega) (by omega)
+  have hg0 : g.fin1.groupSaveSize 0 = g.arch.W * g.fin1.nSaved 0 := by
+    rcases hW with h | h
+    · rw [hgs 0 2 (by omega) (by rw [s0a, h]) (by rw [s0b, h]), h, Nat.mul_comm]
+    · rw [hgs 0 3 (by omega) (by rw [s0a, h]) (by rw [s0b, h]), h, Nat.mul_comm]
+  have hg1 : g.fin1.groupSaveSize 1 = 16 * g.fin1.nSaved 1 := by
+    rw [hgs 1 4 (by omega) (by rw [s1a]) (by rw [s1b]), Nat.mul_comm]
+  have hg2 : g.fin1.groupSaveSize 2 = 8 * g.fin1.nSaved 2 := by
+    rw [hgs 2 3 (by omega) (by rw [s2a]) (by rw [s2b]), Nat.mul_comm]
+  have hg3 : g.fin1.groupSaveSize 3 = 8 * g.fin1.nSaved 3 := by
+    rw [hgs 3 3 (by omega) (by rw [s3a]) (by rw [s3b]), Nat.mul_comm]
+  have hpp : g.fin1.ppSizeC = g.arch.W * g.fin1.nSaved 0 := by
+    have h0 := hn 0
+    have hb : g.arch.W * g.fin1.nSaved 0 ≤ 8 * 32 := Nat.mul_le_mul (by omega) h0
+    unfold Frame.ppSizeC Frame.saveSizeSum u16 u32
+    rw [range4]
+    have ha : ∀ gi, hasPushPop g.fin1.arch gi = decide (gi = 0) := by
+      intro gi; show hasPushPop g.arch gi = _
+      rcases hx.arch with h | h <;> rw [h] <;> rfl
+    simp [List.foldl, ha, hg0]
+    omega
+  have hxs : g.fin1.xSizeC = 16 * g.fin1.nSaved 1 + 8 * g.fin1.nSaved 2 + 8 * g.fin1.nSaved 3 := by
+    have h1 := hn 1
+    have h2 := hn 2
+    have h3 := hn 3
+    unfold Frame.xSizeC Frame.saveSizeSum u16 u32
+    rw [range4]
+    have ha : ∀ gi, hasPushPop g.fin1.arch gi = decide (gi = 0) := by
+      intro gi; show hasPushPop g.arch gi = _
+      rcases hx.arch with h | h <;> rw [h] <;> rfl
+    simp [List.foldl, ha, hg1, hg2, hg3]
+    omega
+  -- attribute bits: finalize may only add kAlignedVecSR (bit 6)
+  have hattr : ∀ i, i ≠ 6 → g.finalize.attrs.testBit i = g.attrs.testBit i := by
+    intro i hi
+    show (if g.fin1.alignedVecC then g.attrs ||| 0x40 else g.attrs).testBit i = _
+    split
+    · exact attrs_or40 _ i hi
+    · rfl
+  have hfp : g.finalize.hasFP = g.hasFP := hattr 4 (by omega)
+  have hcalls : g.finalize.hasFuncCalls = g.hasFuncCalls := hattr 5 (by omega)
+  have hav : g.finalize.alignedVecSR = g.fin1.alignedVecC := by
+    show (if g.fin1.alignedVecC then g.attrs ||| 0x40 else g.attrs).testBit 6 = _
+    cases h : g.fin1.alignedVecC with
+    | true => simp only [if_true]; rw [Nat.testBit_or]; simp; exact Or.inr (by decide)
+    | false => simp only [Bool.false_eq_true, if_false]; exact hx.attr6
+  have hdaOff : g.finalize.daOff = if g.fin1.daSlotC then u32 (g.fin1.xOffC + g.fin1.xSizeC) else invalidOff := rfl
+  have hsmall := lay.small
+  rw [hras] at hsmall
+  have hinv : invalidOff = 4294967295 := rfl
+  have hdaIff : g.finalize.daOff ≠ invalidOff ↔ (g.hasDA = true ∧ g.hasFP = false) := by
+    have hslot : g.fin1.daSlotC = (g.hasDA && !g.hasFP) := rfl
+    rw [hdaOff, hslot]
+    constructor
+    · intro h
+      cases h1 : g.hasDA <;> cases h2 : g.hasFP <;> simp_all
+    · rintro ⟨h1, h2⟩
+      intro hbad
+      have h3 := lay.noDaSlot (by rw [hdaOff, hslot]; exact hbad)
+      have h4 := lay.total
+      have e1 : g.finalize.xOff = g.fin1.xOffC := rfl
+      have e2 : g.finalize.xSize = g.fin1.xSizeC := rfl
+      rw [e1, e2] at h3
+      simp only [h1, h2, Bool.not_false, Bool.and_self, if_true] at hbad
+      unfold u32 at hbad
+      rw [Nat.mod_eq_of_lt (by omega)] at hbad
+      omega
+  exact {
+    arch := hx.arch
+    kA := ⟨k, hk, hA⟩
+    gp16 := Nat.lt_of_le_of_lt Nat.and_le_right hx.pres16
+    noSp := by
+      show (g.fin1.dirty 0 &&& g.preserved 0).testBit 4 = false
+      rw [Nat.testBit_and, hx.presSp, Bool.and_false]
+    fpSaved := fun h => by
+      rw [hfp] at h
+      show (g.fin1.dirty 0 &&& g.preserved 0).testBit 5 = true
+      rw [Nat.testBit_and, hdirty5 h, hx.presFp]; rfl
+    ppSize := hpp
+    xSize := hxs
+    keep := ⟨s1a, s2a, s3a⟩
+    localFits := lay.localFits
+    da := fun h => by
+      have := lay.daSlot h
+      rw [show g.fin1.srSize 0 = g.arch.W from s0a] at this
+      exact this
+    noDa := lay.noDaSlot
+    daIff := by rw [hfp]; exact hdaIff
+    total := lay.total
+    adjPlain := fun h => by
+      have := lay.adjPlain h
+      rw [hras] at this; exact this
+    adjDA := fun h => by
+      obtain ⟨a1, a2, a3⟩ := lay.adjDA h
+      refine ⟨a1, a2, ?_, a3⟩
+      show g.fin1.saOffSpC = invalidOff
+      unfold Frame.saOffSpC
+      have : g.fin1.hasDA = true := h
+      simp only [this, if_true]
+    aligned := fun hu => by
+      have := lay.aligned (by
+        unfold Frame.usesStack at hu
+        rw [hcalls] at hu
+        simp only [Bool.or_eq_true, bne_iff_ne, ne_eq] at hu
+        rcases hu with (hu | hu) | hu
+        · exact Or.inr (Or.inr (Or.inl hu))
+        · exact Or.inl hu
+        · exact Or.inr (Or.inl hu))
+      rw [hras] at this; exact this
+    vecAligned := fun hv => by
+      rw [hav] at hv
+      have hv' := hv
+      unfold Frame.alignedVecC at hv'
+      simp only [Bool.and_eq_true, decide_eq_true_eq, bne_iff_ne, ne_eq] at hv'
+      obtain ⟨v1, v2⟩ := hv'
+      have hx16 := lay.vecAligned (by rw [hav]; exact hv) hv
+      rw [show g.fin1.srSize 1 = 16 from s1a] at hx16 v1
+      refine ⟨hx16, ?_, ?_⟩
+      · show 16 ∣ g.finalAlign
+        rw [hA]
+        have : g.fin1.finalAlign = 2 ^ k := hA
+        rw [this] at v1
+        exact pow2_dvd_of_le 4 k v1
+      · unfold Frame.usesStack
+        have : g.finalize.xSize = g.fin1.xSizeC := rfl
+        simp only [Bool.or_eq_true, bne_iff_ne, ne_eq]
+        left; right
+        rw [this]; omega
+    noDaNat := fun h => by
+      obtain ⟨n1, n2, n, n3⟩ := hx.nat
+      show g.finalAlign = g.natAlign
+      have hda : g.hasDA = false := h
+      unfold Frame.hasDA at hda
+      simp only [decide_eq_false_iff_not, Nat.not_le] at hda
+      rw [n2, hA, n3] at hda
+      rw [hA, n3] at n1
+      rw [hA, n3, pow2_between n k n1 hda]
+    small := hsmall
+    saValid := by
+      show g.fin1.saRegId ≠ 255
+      rw [hsaId]; omega
+    saDA := fun h => by
+      show g.fin1.saRegId ≠ 4
+      rw [hsaId]; exact hsaC.2 h
+    saDirty := fun h => by
+      have h' : g.fin1.saRegId ≠ 4 := h
+      rw [hsaId] at h'
+      show (g.fin1.dirty 0).testBit g.fin1.saRegId = true
+      rw [hsaId]; exact hdirtySa h'
+    saOffSa := by
+      rw [hfp]
+      show g.fin1.saOffSaC = (if g.hasFP = true then 2 * g.arch.W else g.arch.W + g.fin1.ppSizeC)
+      unfold Frame.saOffSaC Frame.regSize
+      rw [hras, show g.fin1.hasFP = g.hasFP from rfl, show g.fin1.srSize 0 = g.arch.W from s0a]
+      have hb : g.fin1.ppSizeC < 2 ^ 16 := by unfold Frame.ppSizeC u16; exact Nat.mod_lt _ (by omega)
+      cases g.hasFP with
+      | true => rcases hW with h | h <;> simp [u32, h]
+      | false =>
+        simp only [Bool.false_eq_true, if_false]; unfold u32; rw [Nat.mod_eq_of_lt (by omega)]
+  }
+
+/-- **C07 on x86-32 / x86-64.** For every frame `g` handed to `finalize` (side conditions `LayoutIn`,
+`X86In`), every entry state allowed by the convention (return address on the stack, `sp + W` naturally
+aligned, room for the frame) and EVERY body confined to the declared areas (`BodyOK`): the prolog runs without
+fault, leaves the caller's memory (return address, arguments) untouched, gives the body the promised `sp`
+alignment and the reported stack-argument offsets; the epilog then returns to the caller's return address with
+`sp = entry sp + W + callee cleanup` and every callee-saved register (GP, vector, mask, mm) holding its entry
+value. Covers frame pointer / no frame pointer, dynamic alignment with and without frame pointer (DA slot),
+user-selected SA register, SSE/AVX save modes, callee-pops. -/
+theorem x86_prolog_body_epilog (g : Frame) (hin : LayoutIn g) (hx : X86In g) (s0 : St)
+    (hentry : entryOk g.finalize s0 = true)
+    (hroom : g.finalize.finalSize + 2 * g.finalAlign ≤ s0.gp 4)
+    (hbits : s0.gp 4 < 256 ^ g.arch.W) :
+    ∃ s1, run g.arch (x86Prolog g.finalize) s0 = some s1 ∧ s1.ret = none
+      ∧ bodyEntryOk g.finalize s0 s1 = true
+      ∧ (∀ x, s0.gp 4 ≤ x → s1.mem x = s0.mem x)
+      ∧ ∀ s2, BodyOK g.finalize (s0.gp 4) s1 s2 →
+          ∃ s3, run g.arch (x86Epilog g.finalize) s2 = some s3 ∧ exitOk g.finalize s0 s3 = true ∧ s3.mem = s2.mem := by
+  obtain ⟨s1, h1, h2, h3, h4, _, h6⟩ := x86_main g.finalize (x86_wf_of_finalize g hin hx) s0 hentry hroom hbits
+  exact ⟨s1, h1, h2, h3, h4, h6⟩
+
+/-- the hostile body the monitor uses is one of the bodies the theorem quantifies over -/
+theorem junkBody_ok (f : Frame) (sp0 : Nat) (s1 : St) (h : s1.ret = none) : BodyOK f sp0 s1 (junkBody f sp0 s1) := by
+  refine ⟨?_, ?_, ?_, ?_, h⟩
+  · simp only [junkBody]
+    have : f.bodyMayWrite 0 f.arch.spId = false := by simp [Frame.bodyMayWrite]
+    rw [this]; rfl
+  · intro a h1 h2
+    simp only [junkBody]
+    rw [if_neg (by omega), if_neg h2]
+  · intro r hr
+    simp only [junkBody, hr]; rfl
+  · intro g r hg hr
+    simp only [junkBody, hr]; simp
+
+/-- every built-in x86 calling convention yields a frame satisfying the static part of `X86In` -/
+theorem x86In_init (arch : Arch) (harch : arch = .x86 ∨ arch = .x64) (id : Nat) (win : Bool) (ci : CallConvInfo)
+    (used : Nat → Nat) (arg : Nat) (h : initCallConv arch id win = some ci) :
+    X86In (Frame.init ci used arg) := by
+  have key : ci.arch = arch ∧ ci.srSize 0 = arch.W ∧ ci.srAlign 0 = arch.W ∧ ci.srSize 1 = 16 ∧ ci.srAlign 1 = 16
+      ∧ ci.srSize 2 = 8 ∧ ci.srAlign 2 = 8 ∧ ci.srSize 3 = 8 ∧ ci.srAlign 3 = 8
+      ∧ clearBit (ci.preserved 0) arch.spId < 2 ^ 16 ∧ (clearBit (ci.preserved 0) arch.spId).testBit 4 = false
+      ∧ (clearBit (ci.preserved 0) arch.spId).testBit 5 = true ∧ (ci.natAlign = 4 ∨ ci.natAlign = 16) := by
+    rcases harch with rfl | rfl <;> simp only [initCallConv] at h <;> (repeat' split at h) <;>
+      first
+      | (injection h with h; subst h; simp only [tbl4, Arch.W, Arch.spId]; decide)
+      | (cases h)
+  obtain ⟨k0, k1, k2, k3, k4, k5, k6, k7, k8, k9, k10, k11, k12⟩ := key
+  have hnat : u8 ci.natAlign = ci.natAlign := by rcases k12 with h | h <;> rw [h] <;> rfl
+  exact {
+    arch := by show ci.arch = _ ∨ ci.arch = _; rw [k0]; exact harch
+    sr0 := by show ci.srSize 0 = ci.arch.W ∧ ci.srAlign 0 = ci.arch.W; rw [k0]; exact ⟨k1, k2⟩
+    sr1 := ⟨k3, k4⟩
+    sr2 := ⟨k5, k6⟩
+    sr3 := ⟨k7, k8⟩
+    pres16 := by show clearBit (ci.preserved 0) ci.arch.spId < _; rw [k0]; exact k9
+    presSp := by show (clearBit (ci.preserved 0) ci.arch.spId).testBit 4 = false; rw [k0]; exact k10
+    presFp := by show (clearBit (ci.preserved 0) ci.arch.spId).testBit 5 = true; rw [k0]; exact k11
+    nat := by
+      show u8 ci.natAlign ≤ u8 ci.natAlign ∧ u8 (u32 (ci.natAlign * 2)) = 2 * u8 ci.natAlign ∧ ∃ n, u8 ci.natAlign = 2 ^ n
+      rcases k12 with h | h <;> rw [h]
+      · exact ⟨Nat.le_refl _, by decide, 2, by decide⟩
+      · exact ⟨Nat.le_refl _, by decide, 4, by decide⟩
+    sa := Or.inl rfl
+    attr6 := by show Nat.testBit 0 6 = false; decide
+  }
+
+/-- the setters used between `init` and `finalize` keep `X86In` (alignments only grow the final alignment) -/
+theorem x86In_setters (g : Frame) (hx : X86In g) (ls la cs ca : Nat) :
+    X86In ((((g.setLocalSize ls).setLocalAlign la).setCallSize cs).setCallAlign ca) := by
+  obtain ⟨n1, n2, n3⟩ := hx.nat
+  exact { arch := hx.arch, sr0 := hx.sr0, sr1 := hx.sr1, sr2 := hx.sr2, sr3 := hx.sr3, pres16 := hx.pres16,
+          presSp := hx.presSp, presFp := hx.presFp, sa := hx.sa, attr6 := hx.attr6,
+          nat := ⟨by
+            show g.natAlign ≤ max3 g.natAlign (u8 ca) (u8 la)
+            unfold max3; omega, n2, n3⟩ }
+
+/-- non-vacuity: the example frame satisfies `X86In`, the SysV entry state of the monitor satisfies the entry
+conditions, so `x86_prolog_body_epilog` applies to it … -/
+example : X86In exFrame :=
+  x86In_setters _ (x86In_init .x64 (Or.inr rfl) 0 false _ (tbl4 0xF008 0 0 0) 0 rfl) 100 32 40 0
+example : entryOk exFrame.finalize (initState .x64 (0x40000000 - 8)) = true := by decide
+/-- … and its prolog is the expected instruction list (dynamic alignment without frame pointer: DA slot). -/
+example : x86Prolog exFrame.finalize
+    = [.push 3, .push 5, .push 12, .push 13, .push 14, .push 15, .mov 5 4, .andImm 4 (-32), .sub 4 224, .stGp 4 164 5] := by
+  decide
 
 end AsmjitVerif.Frame
